@@ -239,8 +239,31 @@ impl InputList {
         let mut index = 0;
         // set once a DOCTYPE with entity declarations has been seen
         let mut declares_entities = false;
+        // A document whose first top-level element is `<svg>` is a whole document
+        // rather than a fragment: nothing but comments, processing instructions and
+        // white space may stand outside that root element.
+        let mut rooted = None;
+        let mut outside_root = None;
         loop {
             let ev = reader.read_event_into(&mut buf);
+            if event_idx_stack.is_empty() {
+                match &ev {
+                    Ok(Event::Start(e)) | Ok(Event::Empty(e)) => {
+                        if rooted.is_none() {
+                            rooted = Some(e.name().as_ref() == b"svg");
+                        } else {
+                            outside_root.get_or_insert(src_line);
+                        }
+                    }
+                    Ok(Event::Text(t)) if !t.iter().all(|c| c.is_ascii_whitespace()) => {
+                        outside_root.get_or_insert(src_line);
+                    }
+                    Ok(Event::CData(_)) => {
+                        outside_root.get_or_insert(src_line);
+                    }
+                    _ => {}
+                }
+            }
             let event_lines = if let Ok(ok_ev) = ev.clone() {
                 // All later processing assumes events are valid UTF-8
                 if std::str::from_utf8(ok_ev.as_ref()).is_err() {
@@ -382,6 +405,11 @@ impl InputList {
             buf.clear();
         }
 
+        if let (Some(true), Some(line)) = (rooted, outside_root) {
+            return Err(SvgdxError::ParseError(format!(
+                "XML error near line {line}: content outside the root element"
+            )));
+        }
         Ok(Self { events })
     }
 
